@@ -69,6 +69,13 @@ CLAIMED = {
     note="Proof under the stated MIR-level leakage model only: code generation (selects turned into branches), caches and hardware timing are not analysed. Hash permutations trusted data-independent. Allow-list: rules/ct_allow.json (1 entry).",
     technique="taint + value abstract interpretation over monomorphic MIR with an explicit leakage model",
     engine="driver-ai"),
+ "C06": dict(
+    category="proof",
+    text="Proof of the injectivity skeleton of the formatted message: at the mu site of every external entry point (pure sign/verify; hash sign/verify x SHA-256, SHA-512, SHAKE128; ctx 0..255; message arbitrary) the absorb list is tr | D | L | ctx | tail with D the constant 00 (pure) / 01 (pre-hash), L the exact linear form len(ctx) placed before the whole context, pure tail = whole message, hash tail = FIPS OID (11 constant bytes, pairwise distinct) followed by a digest of the table length produced by exactly one hasher of the right kind over the whole message; sign and verify build identical lists. Prefix-free header + length-delimited context + fixed-length OID => distinct (mode, ctx, M/(PH,digest)) give distinct M'.",
+    design_ref="DESIGN.md §4 C06",
+    note="Trusted: collision resistance of SHAKE256 / SHA-2 / SHAKE128 (a different M' gives a different mu), hash model (update absorbs exactly its argument), abstract interpreter soundness. That verification then fails is the hash argument, not analysed.",
+    technique="abstract interpretation with symbolic hash absorb lists (value numbering of absorbed items) compared against the FIPS 204 layout",
+    engine="driver-ai"),
 }
 NA_REASON = "check not built yet in this round (static-analysis engine under construction); see DESIGN.md §8 build order"
 
@@ -99,7 +106,7 @@ man = {
  "engines": [
    {"name": "cfg-matrix", "path": "checks/c17.py", "serves_properties": ["C17"], "kind_free_text": "feature-configuration matrix: rustc lints + MIR fingerprints"},
    {"name": "driver-facts", "path": "driver/src/facts.rs", "serves_properties": ["C16", "C17"], "kind_free_text": "type/layout/drop-glue/call-graph facts"},
-   {"name": "driver-ai", "path": "driver/src/ai/", "serves_properties": ["C07", "C10", "C12", "C13", "C14", "C15", "C18"], "kind_free_text": "abstract interpreter over monomorphic MIR"},
+   {"name": "driver-ai", "path": "driver/src/ai/", "serves_properties": ["C06", "C07", "C10", "C12", "C13", "C14", "C15", "C18"], "kind_free_text": "abstract interpreter over monomorphic MIR"},
    {"name": "driver", "path": "driver/", "serves_properties": sorted(CLAIMED), "kind_free_text": "rustc_private driver over type-checked monomorphic MIR (facts, call graph, abstract interpretation)"},
  ],
  "checks": checks,
